@@ -144,6 +144,19 @@ func (c *Config) WriteTo(w io.Writer) (total int64, err error) {
 		return
 	}
 
+	// write chain key, length-prefixed (a nil or empty chain key has length 0): two configs that differ only
+	// in their chain key must not be written as the same bytes
+	if err = binary.Write(w, binary.BigEndian, uint64(len(c.ChainKey))); err != nil {
+		return
+	}
+	total += 8
+	var k int
+	k, err = w.Write(c.ChainKey)
+	total += int64(k)
+	if err != nil {
+		return
+	}
+
 	// write all party data
 	for _, j := range partyIDs {
 		// write Xⱼ
